@@ -155,13 +155,21 @@ func linConfig(lfu bool) Config {
 }
 
 // two threads, one operation each
-func verifL_Lin2(kind int, stale bool) {
+func verifL_Lin2(kind int, stale bool) { verifL_Lin2X(kind, stale, false) }
+
+// cleanupOnly: one thread runs a janitor cleanup cycle, the other Read, Write or Delete (C11 under
+// concurrency: a cycle removes only what is long expired at the moment it looks at it)
+func verifL_Lin2X(kind int, stale bool, cleanupOnly bool) {
 	nOps := linOps
 	if stale {
 		nOps = linOps + 1 // + cleanup cycle
 	}
-	opA := verifChoice("opA", nOps)
-	opB := verifChoice("opB", nOps)
+	var opA, opB int
+	if cleanupOnly {
+		opA, opB = linCleanup, verifChoice("opB", 3)
+	} else {
+		opA, opB = verifChoice("opA", nOps), verifChoice("opB", nOps)
+	}
 	present := verifChoice("present", 2) == 1
 	lfu := false
 	if stale {
@@ -225,6 +233,8 @@ func verifL_Lin2(kind int, stale bool) {
 func verifL_Lin2_ShardedMap()         { verifL_Lin2(0, false) }
 func verifL_Lin2_SyncMap()            { verifL_Lin2(1, false) }
 func verifL_Lin2_ShardedMapOf()       { verifL_Lin2(2, false) }
+func verifL_Cleanup_ShardedMap()      { verifL_Lin2X(0, true, true) }
+func verifL_Cleanup_ShardedMapOf()    { verifL_Lin2X(2, true, true) }
 func verifL_Lin2_ShardedMap_stale()   { verifL_Lin2(0, true) }
 func verifL_Lin2_SyncMap_stale()      { verifL_Lin2(1, true) }
 func verifL_Lin2_ShardedMapOf_stale() { verifL_Lin2(2, true) }
